@@ -20,7 +20,8 @@ claimed = {
 claimed.update({
     "C02": dict(text="Merge algebra of PushRequest.Merge/CopyMerge (union of keys, forced OR, newest snapshot, oldest start, reason counts add, operands untouched/unshared) for every pair of "
                      "requests inside the bound, and a bounded model check of the real PushQueue (Enqueue/Dequeue/MarkDone) with a ghost 'owed' state: one push in flight, nothing owed is lost, FIFO, shared request never mutated; "
-                     "the real debounce() with senders, timers on a symbolic clock and asynchronous push completion under every schedule within the pre-emption bound: no update lost (a lost update is a deadlock), Forced survives, debounced pushes never overlap.",
+                     "the real debounce() with senders, timers on a symbolic clock and asynchronous push completion under every schedule within the pre-emption bound: no update lost (a lost update is a deadlock), Forced survives, debounced pushes never overlap; "
+                     "and the same loop with explicit time (updates arrive after arbitrary pauses, pushes last arbitrarily long, delay-bounded schedule): the debouncer never gets stuck with a pending request.",
                 note="Outside: gRPC stream loops, doSendPushes concurrency limiter, real-time debounce bounds.", ref="§4 C02"),
     "C10": dict(text="Real snapshot construction (initAuthenticationPolicies), selection (getConfigsForWorkload) and ComposePeerAuthentication compared with the documented precedence "
                      "(port > workload > namespace > mesh, oldest wins, ties by name, UNSET inherits, default PERMISSIVE) for every policy set inside the bound, every insertion order, symbolic creation times incl. ties; "
@@ -45,7 +46,7 @@ claimed.update({
                      "every stored entry stays indexed under every dependency; CDS, RDS and EDS cache keys (clusterCache.Key, route.Cache.Key, EndpointBuilder.WriteHash): every field and every list field changes the key stream unambiguously.",
                 note="Outside: inputs read by generators but absent from the entry struct; byte-equality of cached vs fresh protobuf; xxhash collisions.", ref="§4 C06"),
     "C09": dict(text="CreateCertificate binds SANs to exactly the authenticated identities (or the single impersonated identity after the node authorizer accepted it), never to CSR text or other metadata, ForCA is never set, "
-                     "unauthenticated callers never reach the signer; the per-cluster impersonation gate accepts only trusted callers whose pod exists with matching UID/SA and only identities running on the caller's node; "
+                     "unauthenticated callers never reach the signer; the per-cluster impersonation gate accepts only trusted callers whose pod exists with matching UID/SA and only identities running on the caller's node (the real NewClusterNodeAuthorizer with its string-keyed {node, service account} pod index); "
                      "the OIDC authenticator never crashes on any verified subject and derives the identity only from a well-formed system:serviceaccount:ns:sa subject with a matching audience.",
                 note="Also: validity arithmetic of the issued certificate (genCertTemplateFromCSR): never beyond the signing certificate's expiry, never longer than requested, nothing issued by an expired signer. Outside: X.509/ASN.1/PEM/crypto, token signature verification, MaxCertTTL/default TTL selection.", ref="§4 C09"),
     "C13": dict(text="Endpoint index: sequential specification (per service and registry shard the index holds exactly the last report; nothing remains of removed shards/services/registries, service accounts included) "
